@@ -10,6 +10,26 @@ CHECKS = {
             "reference-model monitor over generated op sequences (real store vs HashMap), merges via hook",
             "Thousands of generated single-threaded histories (all configurations of file size / reader cache / reader pool, values up to 200 KB, merges at random positions) are executed on the real store and every result is compared with a map model. Held on the histories generated; sampling, not enumeration.",
             "Trusts the 30-line map model and the verif_merge hook (calls the private merge()). No concurrency (C04), no reopen (C02)."),
+    "C02": ("exploration", "DESIGN.md 5/C02",
+            "reference-model monitor over generated set/del histories with close/reopen cycles",
+            "Generated set/delete histories spanning 1..250 data files are interrupted by close/reopen cycles (1-4 in a row, configuration redrawn each time); after every reopen every key is read back and compared with the map model. Held on the histories generated.",
+            "Close = dropping the owning object. No crash (C03) and no merge (C05) in these histories."),
+    "C05": ("exploration", "DESIGN.md 5/C05",
+            "reference-model monitor around merge passes and reopen cycles, thresholds drawn to vary the selected subset",
+            "Every key is read before a merge, right after it and after each of 1-3 following reopen cycles, for merges at random positions and thresholds from 8 families (all, none, fragmentation, dead bytes, small file, mixed, defaults), and compared with the map model. Held on the histories generated; the selected subsets seen are listed in the evidence.",
+            "Merges run through the verif_merge hook. Which subset a merge selects is observed from the files that disappear."),
+    "C12": ("exploration", "DESIGN.md 5/C12",
+            "differential monitor: recovery of the same closed directory with and without its hint files",
+            "At quiescent points after merges the closed directory is copied twice (as is / all *.hint removed), both copies are opened by the real code and every key must read the same in both. Held on the directory pairs generated; only pairs whose hint files were non-empty count as non-trivial.",
+            "Only agreement between the two recoveries is judged (agreement with the model is C02/C05)."),
+    "C13": ("exploration", "DESIGN.md 5/C13",
+            "size and content monitor around every merge: file sizes, independent record scan, reference store",
+            "Total data-file size is measured around every merge (never grows); for all-eligible merges it must equal the sum of live record sizes, equal a reference store built by the real code from the live pairs, hold each live key exactly once per an independent scan, and be unchanged by a repeated merge. Held on the merges generated.",
+            "Record sizes come from the harness's own description of the file format."),
+    "C19": ("exploration", "DESIGN.md 5/C19",
+            "invariant check at quiescent points: verif_dump (index + per-file counters) vs independent scan of the data files",
+            "After every few operations, every merge and every reopen the dumped index and per-file live/dead/dead-bytes counters are compared with counts derived from an independent scan of the files and with the map model. Held on the snapshots taken.",
+            "verif_dump is a read-only copy taken under the writer lock. Crash-free histories only, as the property states."),
 }
 
 NOT_YET = {
